@@ -86,7 +86,8 @@ def main():
         f = scipy.interpolate.interp1d(np.linspace(lower_cdf, upper_cdf, M),
                 ens, bounds_error=False,
                 axis=3, kind='zero')
-        if quantile == 1:
+        if quantile == 1 or M == 1:
+            # With a single member every level gives that member (the interpolator needs two knots)
             x[:, :, :, i] = ens[:, :, :, -1]
         else:
             x[:, :, :, i] = f(quantile)
